@@ -44,7 +44,7 @@ def make_sender_chunks(rng, base, nmsg=None, streams=None):
 class C01(Check):
     prop = "C01"
     props_file = "Props/C01.v"
-    models = ["SctpRecv"]
+    models = ["SctpRecv", "SctpSend"]
     quick_cases = 1200
     thorough_cases = 30000
     case_timeout = 20.0
@@ -58,8 +58,26 @@ class C01(Check):
             "endpoints, 1-3 channels, 8-70 scheduled ops; distinct by (case, outputs); non-trivial = at least one "
             "message delivered and at least one duplicate, reordering or loss")
 
+    @staticmethod
+    def gen_send_case(rng, origins=None):
+        """k=2: what _send makes of a list of messages: TSNs, stream sequence numbers (counters at any origin, also
+        just below the 16-bit wrap), B/E/U flags, payload slices at the 1200-byte fragment boundary"""
+        nstreams = rng.randrange(1, 4)
+        seqs = [[sid, rng.choice(origins or [0, 0, 1, 65534, 65535, 32767, 32768, rng.randrange(65536)])]
+                for sid in range(nstreams) if rng.random() < 0.8]
+        msgs = []
+        for _ in range(rng.randrange(2, 10)):
+            size = rng.choice([0, 1, 2, 100, 100, 100, 1199, 1200, 1201, 2399, 2400, 2401, 3600, 5000, rng.randrange(0, 4000)])
+            body = [rng.randrange(256) for _ in range(min(size, 4))]
+            # position-dependent filler: a fragment cut at the wrong offset or a swapped slice shows
+            data = body + [(j * 7 + 3) % 251 for j in range(max(0, size - len(body)))]
+            msgs.append([rng.randrange(nstreams + 1), 1 if rng.random() < 0.75 else 0, rng.choice([50, 51, 53, 56, 57]), data])
+        return {"k": 2, "tsn0": rng.choice(ORIGINS + [0xFFFFFFFE]), "msgs": msgs, "seqs": seqs}
+
     def gen_case(self, rng, i):
         r = rng.random()
+        if r < 0.07:
+            return self.gen_send_case(rng)
         if r < 0.18:
             # reliable channels alone, or sharing the association with partially reliable ones (the oracle
             # judges the reliable channels only; abandonment next door must not disturb them)
@@ -79,7 +97,7 @@ class C01(Check):
                 rng.shuffle(perm)
                 arr += perm
             events = [[0, chunks[j]] for j in arr]
-            return {"k": 0, "base": base, "events": events, "sent": sent, "honest": 1}
+            return {"k": 0, "base": base, "events": events, "sent": sent, "honest": 1, "rwnd0": self._rwnd0(rng)}
         # adversarial: mutate flags / tsns, add FORWARD-TSN
         events = []
         for _ in range(rng.randrange(1, 14)):
@@ -97,15 +115,25 @@ class C01(Check):
                 if rng.random() < 0.05:
                     c[0] = (base + rng.choice([65535, 65536, 65537, 70000, 2 ** 31 - 1, 2 ** 31, 2 ** 31 + 1])) & 0xFFFFFFFF
                 events.append([0, c])
-        return {"k": 0, "base": base, "events": events, "sent": [], "honest": 0}
+        return {"k": 0, "base": base, "events": events, "sent": [], "honest": 0, "rwnd0": self._rwnd0(rng)}
+
+    @staticmethod
+    def _rwnd0(rng):
+        """receiver window at the start: mostly the default; small ones so that a few undeliverable chunks exhaust it
+        (a peer that ignores a_rwnd)"""
+        return 0 if rng.random() < 0.7 else rng.choice([1, 50, 300, 1500, 5000])
 
     def model_name(self, case):
-        return "SctpRecv" if case["k"] == 0 else None
+        return {0: "SctpRecv", 2: "SctpSend"}.get(case["k"])
 
     def encode(self, case):
-        return [case["base"], case["events"]]
+        if case["k"] == 2:
+            return [case["tsn0"], case["msgs"], case["seqs"]]
+        return [case["base"], case["events"], case.get("rwnd0", 0)]
 
     def describe_case(self, case):
+        if case["k"] == 2:
+            return {"k": 2, "tsn0": case["tsn0"], "seqs": case["seqs"], "msgs": [m[:3] + [len(m[3])] for m in case["msgs"]]}
         if case["k"] == 0:
             return {"k": 0, "base": case["base"], "honest": case["honest"],
                     "events": [[e[0], e[1][:7] if e[0] == 0 else e[1:]] for e in case["events"][:12]]}
@@ -115,7 +143,33 @@ class C01(Check):
     def impl_run(self, case):
         if case["k"] == 1:
             return SC.run_scenario(case)
+        if case["k"] == 2:
+            return M.run(self._send(case))
         return M.run(self._recv(case))
+
+    async def _send(self, case):
+        """the real RTCSctpTransport._send with transmission switched off: the chunks it queues"""
+        from aiortc import rtcsctptransport as S
+        sim = M.Sim([1, 2, 3, 4])
+        sim._patch()
+        try:
+            t = S.RTCSctpTransport(M._Dtls(sim, 1), port=5000)
+            t._local_tsn = case["tsn0"]
+            t._outbound_stream_seq = {sid: sq for sid, sq in case["seqs"]}
+
+            async def no_transmit():
+                return None
+
+            t._transmit = no_transmit
+            outs = []
+            for sid, ordered, ppid, data in case["msgs"]:
+                t._outbound_queue.clear()
+                await t._send(sid, ppid, bytes(data), ordered=bool(ordered))
+                outs.append([[c.tsn, c.stream_id, c.stream_seq, 1 if c.flags & 4 else 0, 1 if c.flags & 2 else 0,
+                              1 if c.flags & 1 else 0, c.protocol, list(c.user_data)] for c in t._outbound_queue])
+            return outs
+        finally:
+            sim._unpatch()
 
     async def _recv(self, case):
         from aiortc import rtcsctptransport as S
@@ -124,6 +178,8 @@ class C01(Check):
         try:
             t = S.RTCSctpTransport(M._Dtls(sim, 1), port=5000)
             t._last_received_tsn = case["base"]
+            if case.get("rwnd0"):
+                t._advertised_rwnd = case["rwnd0"]
             delivered = []
             sacks = []
 
@@ -171,6 +227,10 @@ class C01(Check):
                     if sacks:
                         k = sacks[-1]
                         sk = [k.cumulative_tsn, k.advertised_rwnd, [list(g) for g in k.gaps], list(k.duplicates)]
+                        try:
+                            bytes(k)
+                        except Exception as exc:  # noqa -- the SACK cannot be put on the wire
+                            sk = [-3, type(exc).__name__]
                     out = [[list(m) for m in delivered], sk]
                 except AssertionError:
                     out = [-2]
@@ -190,9 +250,25 @@ class C01(Check):
 
     # ------------------------------------------------------------ oracle
     def oracle(self, case, out):
+        if case["k"] == 2:
+            for (sid, ordered, ppid, data), chunks in zip(case["msgs"], out):
+                if [b for c in chunks for b in c[7]] != list(data):
+                    return ("fragments-do-not-reassemble", f"the fragments of a {len(data)}-byte message do not concatenate to it")
+                if any(not (0 <= c[2] < 65536 and 0 <= c[0] < 2 ** 32) for c in chunks):
+                    return ("chunk-field-out-of-range", "a DATA chunk carries a TSN / stream sequence number outside its "
+                                                        "wire range (serialising it raises; the counter did not wrap)")
+                if any(len(c[7]) > 1200 for c in chunks):
+                    return ("fragment-too-long", "a fragment exceeds USERDATA_MAX_LENGTH")
+                if chunks and ([c[4] for c in chunks] != [1] + [0] * (len(chunks) - 1)
+                               or [c[5] for c in chunks] != [0] * (len(chunks) - 1) + [1]):
+                    return ("fragment-flags", "B/E flags are not first-only / last-only")
+            return None
         if case["k"] == 0:
             if any(o[0] == [-2] for o in out):
                 return ("reassembly-assertion", "InboundStream.add_chunk assertion fired")
+            for o in out:
+                if len(o[0]) == 2 and o[0][1] and o[0][1][0] == -3:
+                    return ("sack-unserialisable", f"the SACK answering a DATA / FORWARD-TSN chunk cannot be serialised ({o[0][1][1]})")
             if not case["honest"]:
                 return None
             sent = case["sent"]
@@ -215,6 +291,8 @@ class C01(Check):
         return scenario_oracle_reliable(out)
 
     def nontrivial(self, case, out):
+        if case["k"] == 2:
+            return any(len(chunks) > 1 for chunks in out)
         if case["k"] == 0:
             n = sum(len(o[0][0]) for o in out if o[0] != [-2])
             tsns = [e[1][0] for e in case["events"] if e[0] == 0]
@@ -223,9 +301,14 @@ class C01(Check):
 
     def distribution(self, cases, outs):
         d = {"recv_honest": 0, "recv_adversarial": 0, "scenario": 0, "events": 0, "deliveries": 0, "dups": 0,
-             "fwd_tsn": 0, "scenario_msgs": 0}
+             "fwd_tsn": 0, "scenario_msgs": 0, "send": 0, "send_msgs": 0, "send_fragments": 0, "send_ssn_wraps": 0}
         for c, o in zip(cases, outs):
-            if c["k"] == 0:
+            if c["k"] == 2:
+                d["send"] += 1
+                d["send_msgs"] += len(c["msgs"])
+                d["send_fragments"] += sum(len(chunks) for chunks in o)
+                d["send_ssn_wraps"] += sum(1 for chunks in o for ch in chunks[:1] if ch[2] == 65535)
+            elif c["k"] == 0:
                 d["recv_honest" if c["honest"] else "recv_adversarial"] += 1
                 d["events"] += len(c["events"])
                 d["fwd_tsn"] += sum(1 for e in c["events"] if e[0] == 1)
@@ -237,7 +320,7 @@ class C01(Check):
         return d
 
     def shrink_candidates(self, case):
-        key = "events" if case["k"] == 0 else "ops"
+        key = {0: "events", 2: "msgs"}.get(case["k"], "ops")
         l = case[key]
         n = len(l)
         step = max(1, n // 2)
